@@ -45,6 +45,11 @@ def _configs(tier, full):
         return
     for a in a_axis:
         yield dict(a, **b0)
+    # centre coordinates together with reductions that are not idempotent (seed C09-r3_1: points moved to the centre BEFORE reducing)
+    for r in ("sum", "max", "median"):
+        for dr in (True, False):
+            yield dict(dict(red=r, ncomp=1, w=False), **dict(b0, center=True, drop=dr))
+    yield dict(dict(red="wsum", ncomp=2, w=True), **dict(b0, center=True, drop=False))
     for b in b_axis:
         if b == b0:
             continue
